@@ -157,11 +157,11 @@ func (d DDoc) Render(opt RenderOpt) string {
 
 // ---- alphabets ----
 
-var D822Firsts = []string{"", "v", "v w", "v: w", "#v", "é\tz"}
+var D822Firsts = []string{"", "v", "v w", "v: w", "#v", "é\tz", ".", "3-8% of %s", "J\xf6rg a\rb"}
 
 var D822ContLines = []DLine{
 	{' ', "x"}, {'\t', "x"}, {' ', " indented"}, {'\t', " indented"}, {' ', "."}, {'\t', "."}, {' ', "x  "}, {' ', "y: z"},
-	{' ', "#include <x>"}, {' ', "\ttabbed"},
+	{' ', "#include <x>"}, {' ', "\ttabbed"}, {' ', "100%d %"}, {' ', "Ren\xe9 \xff"}, {' ', ".."}, {' ', ". ."},
 }
 
 // D822FieldShapes: every first line x every sequence of 0..maxCont continuation lines.
